@@ -229,6 +229,19 @@ func runCase(c Case) *hx.Failure {
 	if c.Route == "ecal" {
 		return judgeWrapping(ret, err, runRet, runErr, what+" source "+strconv.Quote(src))
 	}
+	// the same call once more through the same adapter: judged like the first one (an adapter keeps nothing
+	// between calls)
+	var ret2 interface{}
+	var err2 error
+	if f := hx.Guard(func() { ret2, err2 = call() }); f != nil {
+		f.Sig = "again:" + f.Sig
+		f.Msg = "second identical call of " + what + ": " + f.Msg
+		return f
+	}
+	if f := judge(e, ret2, err2, "second identical call of "+what); f != nil {
+		f.Sig = "again:" + f.Sig
+		return f
+	}
 	return nil
 }
 
